@@ -1,5 +1,5 @@
 (* C15 -- Graph optimisation does not change what can be generated. *)
-From Fences Require Import GraphSpec GraphOps GraphOpt.
+From Fences Require Import GraphSpec GraphOps GraphOpt GraphResolve GraphOptLinks.
 
 (* For every graph (any mix of modes, sharing, cycles, chains of do-nothing decisions of any length) and
    every complete execution of the interpreter before optimize() there is one after it that applies the same
@@ -29,6 +29,49 @@ Theorem C15_sem_everywhere : forall fuel g root g',
   (forall x c tr, Run0 g' x c tr -> exists c' tr', Run0 g x c' tr' /\ vis (is_noop g) tr' = vis (is_noop g) tr).
 Proof. exact optimize_sem. Qed.
 Print Assumptions C15_sem_everywhere.
+
+(* The graph stays consistently linked: after optimize(), at every node reachable from the root both checks of
+   fences.core.debug.check_consistency hold -- every incoming record names a decision whose transition of that
+   index leads here, and every outgoing transition is recorded at its target with the right index.  For every
+   consistently linked table (any sharing, cycles, chains of any length, repeated children), any recursion budget.
+   The spliced-out decisions stay in the table, as the Python objects stay in memory; they are unreachable. *)
+Theorem C15_links : forall fuel g root g',
+  consistent g -> optimize fuel g root = Ok g' ->
+  forall x, reach g' root x ->
+    (forall s i, In (s, i) (ins_of g' x) -> is_dec g' s = true /\ nth_error (outs_of g' s) i = Some x) /\
+    (forall i t, nth_error (outs_of g' x) i = Some t -> In (x, i) (ins_of g' t)).
+Proof. exact optimize_links. Qed.
+Print Assumptions C15_links.
+
+(* the same for a table as resolve() leaves it (C14_resolve_general): links truthful except at the Reference
+   nodes, none of which is reachable -- this is the table the front ends call optimize() on *)
+Theorem C15_links_resolved : forall fuel g r g',
+  outs_ok g -> ins_ok_nr g -> (forall x, reach g r x -> is_ref g x = false) ->
+  optimize fuel g r = Ok g' ->
+  forall x, reach g' r x ->
+    (forall s i, In (s, i) (ins_of g' x) -> is_dec g' s = true /\ nth_error (outs_of g' s) i = Some x) /\
+    (forall i t, nth_error (outs_of g' x) i = Some t -> In (x, i) (ins_of g' t)).
+Proof. exact optimize_links_resolved. Qed.
+Print Assumptions C15_links_resolved.
+
+(* The node count does not grow: Node.items() after optimize() is at most as long as before (no node becomes
+   reachable that was not), and the table keeps its size. *)
+Theorem C15_count : forall fuel g root g' f1 f2 its its',
+  consistent g -> optimize fuel g root = Ok g' ->
+  items f1 g root = Ok its -> items f2 g' root = Ok its' -> length its' <= length its.
+Proof. exact optimize_count. Qed.
+Print Assumptions C15_count.
+
+Theorem C15_count_resolved : forall fuel g r g' f1 f2 its its',
+  outs_ok g -> ins_ok_nr g -> (forall x, reach g r x -> is_ref g x = false) ->
+  optimize fuel g r = Ok g' ->
+  items f1 g r = Ok its -> items f2 g' r = Ok its' -> length its' <= length its.
+Proof. exact optimize_count_resolved. Qed.
+Print Assumptions C15_count_resolved.
+
+Theorem C15_table_size : forall fuel g root g', optimize fuel g root = Ok g' -> length g' = length g.
+Proof. exact optimize_length. Qed.
+Print Assumptions C15_table_size.
 
 Theorem C15_non_decision : forall fuel g root, is_dec g root = false -> optimize fuel g root = Ok g.
 Proof. intros fuel g root H. unfold optimize. rewrite H. reflexivity. Qed.
